@@ -224,6 +224,45 @@ pub fn load_corpus() -> Vec<String> {
         .unwrap_or_default()
 }
 
+pub fn load_lines() -> Vec<(String, Vec<String>)> {
+    let path = concat!(env!("CARGO_MANIFEST_DIR"), "/../corpus/lines.txt");
+    std::fs::read_to_string(path)
+        .map(|s| {
+            s.lines()
+                .map(|l| l.trim())
+                .filter(|l| !l.is_empty() && !l.starts_with('#'))
+                .filter_map(|l| {
+                    let (f, m) = l.split_once(';')?;
+                    Some((f.trim().to_string(), m.split_whitespace().map(|x| x.to_string()).collect()))
+                })
+                .collect()
+        })
+        .unwrap_or_default()
+}
+
+/// "e2e4" / "e7e8q"
+pub fn parse_mv(s: &str) -> Option<ChessMove> {
+    let b = s.as_bytes();
+    if b.len() < 4 {
+        return None;
+    }
+    let sq = |f: u8, r: u8| -> Option<Pos> {
+        if (b'a'..=b'h').contains(&f) && (b'1'..=b'8').contains(&r) {
+            Pos::from_u8((r - b'1') * 8 + (f - b'a'))
+        } else {
+            None
+        }
+    };
+    let piece = match b.get(4) {
+        Some(b'q') => Some(chess_bitboard::PromotionPiece::Queen),
+        Some(b'r') => Some(chess_bitboard::PromotionPiece::Rook),
+        Some(b'b') => Some(chess_bitboard::PromotionPiece::Bishop),
+        Some(b'n') => Some(chess_bitboard::PromotionPiece::Knight),
+        _ => None,
+    };
+    Some(ChessMove { source: sq(b[0], b[1])?, dest: sq(b[2], b[3])?, piece })
+}
+
 fn is_capture(b: &Board, m: ChessMove) -> bool {
     b.raw().get(m.dest).is_some()
 }
@@ -523,7 +562,22 @@ pub fn positions(rng: &mut Rng, n: usize) -> Vec<Tagged> {
         }
     }
     out.push(Tagged { board: Board::standard(), tag: "standard" });
-    let target_play = n * 45 / 100;
+    // fixed lines that end in rare situations (corpus/lines.txt): the start and every position along the line
+    for (fen, moves) in load_lines() {
+        let Some(mut b) = crate::common::guard(|| chess_movegen::fen::parse_fen(fen.as_bytes()).ok()).flatten() else { continue };
+        out.push(Tagged { board: b, tag: "corpus-line" });
+        for m in moves {
+            let Some(mv) = parse_mv(&m) else { break };
+            match crate::common::guard(|| b.move_new(mv)).flatten() {
+                Some(nb) => {
+                    b = nb;
+                    out.push(Tagged { board: b, tag: "corpus-line" });
+                }
+                None => break,
+            }
+        }
+    }
+    let target_play = out.len() + n * 45 / 100;
     while out.len() < target_play {
         let plies = 20 + rng.below(100) as usize;
         if rng.chance(1, 2) || roots.is_empty() {
@@ -544,7 +598,8 @@ pub fn positions(rng: &mut Rng, n: usize) -> Vec<Tagged> {
     }
     out.extend(cons);
     out.extend(extra);
-    out.truncate(n.max(corpus.len() + 1));
+    let fixed = corpus.len() + 1 + load_lines().iter().map(|l| l.1.len() + 1).sum::<usize>();
+    out.truncate(n.max(fixed));
     out
 }
 
